@@ -65,23 +65,6 @@ impl<K: Key> ReadState<K> {
       hash_to_key_map: BTreeMap::<KeyHash, K>::new(),
     }
   }
-
-  // This is a helper function so that borrow checker understands
-  // that we are splitting one mutable borrow into two _disjoint_ mutable
-  // borrows.
-  fn get_sn_map_and_hash_map(
-    &mut self,
-  ) -> (
-    &mut BTreeMap<GUID, SequenceNumber>,
-    &mut BTreeMap<KeyHash, K>,
-  ) {
-    let ReadState {
-      last_read_sn,
-      hash_to_key_map,
-      ..
-    } = self;
-    (last_read_sn, hash_to_key_map)
-  }
 }
 
 /// SimpleDataReaders can only do "take" semantics and does not have
@@ -359,15 +342,18 @@ where
     let topic_cache = self.acquire_the_topic_cache_guard();
 
     let mut read_state_ref = self.read_state.lock().unwrap();
-    let latest_instant = read_state_ref.latest_instant;
-    let (last_read_sn, hash_to_key_map) = read_state_ref.get_sn_map_and_hash_map();
+    let ReadState {
+      latest_instant,
+      last_read_sn,
+      hash_to_key_map,
+    } = &mut *read_state_ref;
 
     // loop in case we get a sample that should be ignored, so we try next.
     loop {
       #[cfg(rustdds_verif)]
       crate::verif::hooks::tick();
       let (timestamp, cc) =
-        match Self::try_take_undecoded(is_reliable, &topic_cache, latest_instant, last_read_sn)
+        match Self::try_take_undecoded(is_reliable, &topic_cache, *latest_instant, last_read_sn)
           .next()
         {
           None => return Ok(None), // no more data available right now
@@ -376,19 +362,20 @@ where
 
       let result = self.deserialize_with(timestamp, cc, hash_to_key_map, decoder.clone());
 
+      // make copies of guid and SN to calm down borrow checker.
+      let writer_guid = cc.writer_guid;
+      let sequence_number = cc.sequence_number;
+      // Advance read pointer, error or not, because otherwise
+      // the SimpleDatareader is stuck.
+      // This applies also to a change that we are going to ignore. Otherwise, we
+      // would find the same change again on the next round and loop here forever.
+      *latest_instant = max(*latest_instant, timestamp);
+      last_read_sn.insert(writer_guid, sequence_number);
+
       if let Err(ReadError::UnknownKey { .. }) = result {
         // ignore unknown key hash, continue looping
       } else {
         // return with this result
-        // make copies of guid and SN to calm down borrow checker.
-        let writer_guid = cc.writer_guid;
-        let sequence_number = cc.sequence_number;
-        // Advance read pointer, error or not, because otherwise
-        // the SimpleDatareader is stuck.
-        read_state_ref.latest_instant = max(latest_instant, timestamp);
-        read_state_ref
-          .last_read_sn
-          .insert(writer_guid, sequence_number);
 
         // // Debug sanity check:
         // use crate::Duration;
